@@ -77,6 +77,22 @@ def gen_cases(rng, tier):
             outer.append(o)
             inner.append(i)
         cases.append({'outer': outer, 'inner': inner, 'kind': 'random'})
+    # a long run: frame numbers beyond what 16-bit (65535) time indices can hold; few changes, some of them late (oracle only)
+    for _ in range({'quick': 1, 'thorough': 3, 'search': 1}[tier]):
+        T = rng.choice([70000, 66000, 131100])
+        outer, inner = [], []
+        for _a in range(2):
+            times = sorted(set([rng.randrange(T - 1) for _ in range(6)] + [T - 2, 32767, 32768, 65535, 65536, T - 70]))
+            o = []
+            cur, k = rng.randint(-1, 2), 0
+            for t in range(T):
+                o.append(cur)
+                if k < len(times) and t == times[k]:
+                    cur = rng.choice([v for v in (-1, 0, 1, 2) if v != cur])
+                    k += 1
+            outer.append(o)
+            inner.append(list(o))
+        cases.append({'outer': outer, 'inner': inner, 'kind': 'long'})
     # the same histories realised as atom positions and taken through the public entry point (site search included): every atom sits in the inner
     # core or only in the outer shell of a site, or far from all sites; some runs never enter any inner core, some leave a whole label group unvisited
     for _ in range({'quick': 40, 'thorough': 400, 'search': 20}[tier]):
@@ -217,8 +233,8 @@ def oracle(case, out):
 
 
 def coq_term(case, out):
-    if 'rows' not in out:
-        return None
+    if 'rows' not in out or case.get('kind') == 'long':
+        return None          # long runs: decided by the oracle (a literal of 10^5 frames is too large for the tie)
     if out.get('prev') is None:
         # the public entry point raised before any state could be observed; with a change in the history that is a violation found by the oracle
         # (events/raises-with-change), without one it is the accepted "nothing ever changes" rejection: nothing to hand to the model
@@ -254,4 +270,4 @@ def classify(case, out):
 
 
 def sample(case, out):
-    return {'outer': case['outer'], 'inner': case['inner'], 'rows': out.get('rows', [])[:6], 'error': out.get('error')}
+    return {'outer': [o[:40] for o in case['outer']], 'inner': [i[:40] for i in case['inner']], 'rows': out.get('rows', [])[:6], 'error': out.get('error')}
